@@ -475,7 +475,7 @@ def file_type_boundary_cases():
     cases = []
     pad = 'X' * 70
 
-    def mk(name, headers, dates, amounts, desc='ACME STORE', extra=None):
+    def mk(name, headers, dates, amounts, desc='ACME STORE', extra=None, ragged=False):
         rows = []
         for j, (d, a) in enumerate(zip(dates, amounts)):
             row = []
@@ -490,6 +490,8 @@ def file_type_boundary_cases():
                 else:
                     row.append('R%d' % (j + 1))
             rows.append(row)
+        if ragged and len(rows) > 1:
+            rows[1] = rows[1] + [' 0.00']      # one row with an extra trailing cell: not a rectangular table
         cases.append({'headers': headers, 'rows': rows, 'src': 'file-type-boundary:' + name})
     H1 = ['Date', 'Ref', 'Description', 'Amount']
     H2 = ['Trans Date', 'Merchant', 'Card', 'Debit']
@@ -505,10 +507,16 @@ def file_type_boundary_cases():
                 mk(f'{nm}+amount-after-blank/{n}', H, ds, amts_sp[:n])               # ... + amount indicator
                 mk(f'{nm}+long-lines/{n}', H, ds, amts[:n], extra=pad)                # ... + long uniform lines
                 mk(f'{nm}+both/{n}', H, ds, amts_sp[:n], extra=pad)                   # ... + both
-            # date + TWO blanks on >= 3 lines + another indicator: scored fixed-width by the unchanged code (known finding,
-            # C18.Props.c18_csv_is_reported_refuted)
+                if n >= 5:   # the same, ragged (the delimited-table guard does not apply; only the score decides)
+                    mk(f'{nm}+amount-after-blank/ragged/{n}', H, ds, amts_sp[:n], ragged=True)
+                    mk(f'{nm}+both/ragged/{n}', H, ds, amts_sp[:n], extra=pad, ragged=True)
+            # date + TWO blanks on >= 3 lines + another indicator: the score fires, but the file is a delimited table
+            # (C18.Props.c18_csv_is_reported; before the fix these were reported fixed-width)
             mk(f'two-blanks+amount-after-blank/{n}', H, [d + '  Fri' for d in days[:n]], amts_sp[:n])
             mk(f'two-blanks+long-lines/{n}', H, [d + '  Fri' for d in days[:n]], amts[:n], extra=pad)
+            mk(f'two-blanks+amount-after-blank+quoted-comma/{n}', H, [d + '  Fri' for d in days[:n]], amts_sp[:n], desc='CAFE, INC "x"')
+            mk(f'two-blanks+thousands-amount-after-blank/{n}', H, [d + '  Fri' for d in days[:n]],
+               [' 1,234.50', ' -2,000,000.00', ' 12.50', ' 1,000.00', ' 3.00', ' 10,500.25', ' 7.00'][:n])
             # date + TWO blanks on >= 3 lines, no other indicator (2 points)
             mk(f'two-blanks-only/{n}', H, [d + '  Fri' for d in days[:n]], amts[:n])
             # no date-blank pattern, both other indicators (2 points)
@@ -621,10 +629,15 @@ Definition ok_parse (c : string * option string * ftab * pexp) : bool :=
   end.
 Inductive iexp := IFixed | INone | ISome (date : nat) (fmt : string) (desc amount : nat) (loc : option nat) (suggested : string).
 Inductive dexp := DNone | DSome (date : nat) (fmt : string) (desc amount : nat) (loc : option nat).
-(* (lines of the file sample, header cells, auto_detect_csv_format called directly, what `tally inspect` printed) *)
-Definition ok_inspect (c : list string * list string * dexp * iexp) : bool :=
-  let '(ls, hs, dx, e) := c in
-  (match inspect_report ls hs, e with
+Fixpoint strs_eqb (a b : list string) : bool :=
+  match a, b with [], [] => true | x :: r, y :: s => (String.eqb x y && strs_eqb r s)%bool | _, _ => false end.
+(* (lines of the file sample, header cells, [reference table lines, csv.reader's field counts for them],
+    auto_detect_csv_format called directly, what `tally inspect` printed) *)
+Definition ok_inspect (c : list string * list string * (list string * option (list nat)) * dexp * iexp) : bool :=
+  let '(ls, hs, tk, dx, e) := c in
+  let csvcount := fun x : list string => if strs_eqb x (fst tk) then snd tk else None in
+  (strs_eqb (table_lines (firstn 20 ls)) (fst tk) &&
+   match inspect_report csvcount ls hs, e with
    | RFixedWidth, IFixed => true
    | RNoDetect, INone => true
    | RDetected d s, ISome da fm de am lo sg =>
@@ -753,8 +766,11 @@ def model_check(parse_cases, parse_res, insp_cases, insp_res):
             e = f"ISome {det['date']} {coq_str(det['fmt'])} {det['desc']} {det['amount']} {onat(det['loc'])} {coq_str(r['suggested'])}"
         dx = r.get('direct')
         dx = 'DNone' if not dx else f"(DSome {dx['date']} {coq_str(dx['fmt'])} {dx['desc']} {dx['amount']} {onat(dx['loc'])})"
+        tc = r.get('table_counts')
+        tk = '([' + '; '.join(coq_str(l) for l in r.get('table_lines') or []) + '], ' + \
+             ('None' if tc is None else 'Some [' + '; '.join(str(n) for n in tc) + ']') + ')'
         rows.append('([' + '; '.join(coq_str(l) for l in r.get('sample_lines') or []) + '], [' +
-                    '; '.join(coq_str(h) for h in c['headers']) + f'], {dx}, {e})')
+                    '; '.join(coq_str(h) for h in c['headers']) + f'], {tk}, {dx}, {e})')
         idx.append(i)
     counts['inspect_reported_fixed_width'] = sum(1 for x in rows if x.endswith('IFixed)'))
     bad, err = run_chunks('inspect', rows, 'ok_inspect', chunk=200)
@@ -909,7 +925,11 @@ def main(tier):
         '"a template names a column" is Spec.looks_up: the argument name (up to the first "." or "[") of a replacement field '
         'reported by the library parser, at any nesting depth; positional fields count as the names "" / digits (over-approximation)',
         'history: before the fix of ' + KNOWN_NONPLAIN + ' only plain {name} references were checked; that signature is '
-        'now listed as fixed and a regression is reported as VIOLATION']
+        'now listed as fixed and a regression is reported as VIOLATION',
+        'inspect\'s file-kind heuristic is in the model (fixed-width score + delimited-table guard); csv.reader, which the guard '
+        'calls, is a universally quantified parameter of the theorems and its field counts are supplied per case; the model\'s '
+        'thousands-separator removal is compared with re.sub on every case; history: before the fix of ' + KNOWN_FIXED_WIDTH +
+        ' a CSV with "MM/DD/YYYY  Thu" dates was reported fixed-width; now listed as fixed, a regression is a VIOLATION']
     tfails = regen_gen()
     res = run.proof_step(COQ_FILES, extra_trusted=[
         'tools/c18_tables.py (table translator, fail closed)', 'harness/c18.py + harness/impl_c18.py (generators, correspondence, oracle)',
